@@ -90,9 +90,10 @@ type Conn struct {
 	Endless           bool // once armed (ArmEndless) the receive direction never runs dry
 	endlessArmed      bool
 	endlessN          int
-	TimeoutErr        error // returned by a timed-out read instead of the bare os.ErrDeadlineExceeded (network mode)
-	DoubleCloseErr    bool  // a second Close fails with net.ErrClosed, as on real sockets
-	WDeadlineErr      error // SetWriteDeadline fails with this error
+	TimeoutErr        error  // returned by a timed-out read instead of the bare os.ErrDeadlineExceeded (network mode)
+	DoubleCloseErr    bool   // a second Close fails with net.ErrClosed, as on real sockets
+	AddrOverride      string // RemoteAddr reports this instead of the peer's name (listeners whose peers have no distinct address: pipes, unix sockets)
+	WDeadlineErr      error  // SetWriteDeadline fails with this error
 	WDeadlineRejected int
 	WriteErr          error // next Write fails with this error ...
 	WriteErrN         int   // ... after accepting this many bytes
@@ -552,8 +553,13 @@ func (c *Conn) Close() error {
 
 func (c *Conn) Flush() error { return nil }
 
-func (c *Conn) LocalAddr() net.Addr  { return simAddr(c.Name) }
-func (c *Conn) RemoteAddr() net.Addr { return simAddr(c.peerName()) }
+func (c *Conn) LocalAddr() net.Addr { return simAddr(c.Name) }
+func (c *Conn) RemoteAddr() net.Addr {
+	if c.AddrOverride != "" {
+		return simAddr(c.AddrOverride)
+	}
+	return simAddr(c.peerName())
+}
 func (c *Conn) peerName() string {
 	if c.peer != nil {
 		return c.peer.Name
